@@ -14,9 +14,18 @@
 (*                          WalkNode (rdepends update + top-level dfs)     *)
 (*   module_load()          ModuleLoad: "already exists" test, module_get, *)
 (*                          dlopen (LOG_FATAL -> _exit(1)), constructor;   *)
-(*                          the chain loading_module / prior is `lstack`   *)
+(*                          the global loading_module is `loading`, the    *)
+(*                          constructors in progress with their saved      *)
+(*                          `prior` are `lstack`; the optional             *)
+(*                          module_constructor is looked up with dlsym and *)
+(*                          skipped when absent, loading_module = prior is *)
+(*                          done either way  (Bug = "NoCtorNoRestore": an  *)
+(*                          early return without the restore when there is *)
+(*                          no constructor)                                *)
 (*   module_depends() /     Ctor: one declaration per step, loading the    *)
-(*   module_antidepends()   target first when it does not exist yet        *)
+(*   module_antidepends()   target first when it does not exist yet; the   *)
+(*                          edge is recorded for loading_module, whatever  *)
+(*                          module's constructor makes the call            *)
 (*   module_dfs()           DfsStep with the recursion as `dstack`; the    *)
 (*                          visited marks: 0 never, -visit in progress,    *)
 (*                          >0 post-init done  (Bug = "D12": the marks as  *)
@@ -41,12 +50,15 @@
 (*                          loop only runs when a destructor was found)    *)
 (*                                                                         *)
 (* The hook profile (which modules lack module_post_init / lack            *)
-(* module_destructor) is part of the case chosen in Init: Profiles =       *)
-(* "full" (every module has both), "all" (every profile), "good" (every    *)
-(* profile for GOOD cases, "full" for the others; Python draws profiles    *)
-(* for a sample of those and hands them back through a case file),         *)
-(* "goodpaired" (as "good", but only the profiles <<S, S>> and             *)
-(* <<S, complement of S>> for every set S of modules).                     *)
+(* module_destructor / lack module_constructor; only a module that         *)
+(* declares nothing can lack the constructor) is part of the case chosen   *)
+(* in Init: Profiles = "full" (every module has all three), "all" (every   *)
+(* profile), "good" (every profile for GOOD cases, "full" for the others;  *)
+(* Python draws profiles for a sample of those and hands them back through *)
+(* a case file), "goodpaired" (as "good", but only the profiles            *)
+(* <<S, S, {}>> and <<S, complement of S, {}>> for every set S of modules, *)
+(* and <<{}, {}, X>> and <<X, X, X>> for every non-empty set X of modules  *)
+(* that declare nothing: X lack the constructor only / every entry point). *)
 (*                                                                         *)
 (* B is deterministic: one behaviour per initial state; the initial states *)
 (* are the cases.  Source = "enum": all cases with n <= MaxN modules that  *)
@@ -66,15 +78,18 @@ CONSTANTS
     WithAnti,    \* enum: also module_antidepends() edges (outside the contract; exploration only)
     Profiles,    \* enum: "full" | "all" | "good" | "goodpaired"  (hook profiles, see above)
     Bug          \* "none" | "D12" (module_dfs before commit 47cba46)
-                 \* | "NoPostNoMark" | "NoDtorNoUnlink" (regressions on the paths for absent hooks)
+                 \* | "NoPostNoMark" | "NoDtorNoUnlink" | "NoCtorNoRestore" (regressions on the paths
+                 \*   for absent entry points)
 
 VARIABLES
-    cs,        \* the case: [n, deps, anti, backend, list, missing, nopost, nodtor]  (never changes)
+    cs,        \* the case: [n, deps, anti, backend, list, missing, nopost, nodtor, noctor]  (never changes)
     phase,     \* "load" | "prepass" | "walk" | "close" | "exited"
     mods,      \* names present in the `modules` set (iterated in name order)
     depends, rdepends, handle, visited, backend,    \* struct module fields, by name
     ii,        \* module_load_list: index into the list
-    lstack,    \* module_load recursion: <<[m, k]>>, top = loading_module, below = prior ...
+    lstack,    \* module_load recursion, one frame per constructor in progress: <<[m, k, prior]>>
+               \* (m = the module whose constructor runs, k = its next call, prior = the local `prior`)
+    loading,   \* the global loading_module (0 = NULL)
     visit,     \* module_load_list: visit counter
     node,      \* cursor of the set iteration in module_load_list / module_close_all (0 = NULL)
     dstack,    \* module_dfs recursion: <<[m, i]>>
@@ -82,7 +97,7 @@ VARIABLES
     log,       \* the observable event log
     status     \* exit status (-1 while the process lives)
 
-vars == <<cs, phase, mods, depends, rdepends, handle, visited, backend, ii, lstack, visit, node,
+vars == <<cs, phase, mods, depends, rdepends, handle, visited, backend, ii, lstack, loading, visit, node,
           dstack, closing, log, status>>
 
 Mods == 1..cs.n
@@ -103,7 +118,7 @@ NoAnti(n)   == [m \in 1..n |-> <<>>]
 FileCases == ndJsonDeserialize(IOEnv.CASES)
 FileCase(r) == [n |-> r.n, deps |-> r.deps, anti |-> NoAnti(r.n), backend |-> {},
                 list |-> r.list, missing |-> Range(r.missing),
-                nopost |-> Range(r.nopost), nodtor |-> Range(r.nodtor)]
+                nopost |-> Range(r.nopost), nodtor |-> Range(r.nodtor), noctor |-> Range(r.noctor)]
 
 \* every module is named in the list, pulled in by a dependency, or pulled in by an anti-dependency
 AllPulledIn(c) ==
@@ -121,7 +136,7 @@ InitCase(c) ==
     /\ handle   = [m \in 1..c.n |-> FALSE]
     /\ visited  = [m \in 1..c.n |-> 0]
     /\ backend  = [m \in 1..c.n |-> 0]
-    /\ ii = 1 /\ lstack = <<>> /\ visit = 0 /\ node = 0 /\ dstack = <<>>
+    /\ ii = 1 /\ lstack = <<>> /\ loading = 0 /\ visit = 0 /\ node = 0 /\ dstack = <<>>
     /\ closing = [call |-> 0, part |-> "none", progress |-> FALSE]
     /\ log = <<>>
     /\ status = -1
@@ -135,19 +150,25 @@ AntiGraphs(n, d) ==
     ELSE {NoAnti(n)}
 MissingChoices(n, d, a) ==
     {{}} \cup (IF WithMissing THEN {{m} : m \in {y \in 1..n : d[y] = <<>> /\ a[y] = <<>>}} ELSE {})
-\* hook profiles <<nopost, nodtor>> of the enumeration; a module without a shared object has no profile
+\* the modules that may lack module_constructor: a constructor is the only place to declare anything from
+Silent(c) == {m \in (1..c.n) \ c.missing : c.deps[m] = <<>> /\ c.anti[m] = <<>> /\ m \notin c.backend}
+\* hook profiles <<nopost, nodtor, noctor>> of the enumeration; a module without a shared object has no profile
 ProfileChoices(c) ==
     LET Have == (1..c.n) \ c.missing
         L    == SUBSET Have
-        AnyP == L \X L
+        X    == (SUBSET Silent(c)) \ {{}}
+        AnyP == L \X L \X (SUBSET Silent(c))
         \* every set of modules without post-init, each once with the same and once with the
         \* complementary set of modules without destructor (so every module also has each of the
-        \* four variants in every case)
-        Paired == {<<x, x>> : x \in L} \cup {<<x, Have \ x>> : x \in L}
-    IN CASE Profiles = "full" -> {<<{}, {}>>}
+        \* four variants in every case), all with constructors; and every non-empty set of modules
+        \* that declare nothing lacking the constructor only / all three entry points
+        Paired == {<<x, x, {}>> : x \in L} \cup {<<x, Have \ x, {}>> : x \in L}
+                  \cup {<<{}, {}, x>> : x \in X} \cup {<<x, x, x>> : x \in X}
+        Full == {<<{}, {}, {}>>}
+    IN CASE Profiles = "full" -> Full
          [] Profiles = "all"  -> AnyP
-         [] Profiles = "good" -> IF Good(c) THEN AnyP ELSE {<<{}, {}>>}
-         [] Profiles = "goodpaired" -> IF Good(c) THEN Paired ELSE {<<{}, {}>>}
+         [] Profiles = "good" -> IF Good(c) THEN AnyP ELSE Full
+         [] Profiles = "goodpaired" -> IF Good(c) THEN Paired ELSE Full
 
 Init ==
     IF Source = "file"
@@ -161,7 +182,7 @@ Init ==
             IN /\ AllPulledIn(c)
                /\ \E p \in ProfileChoices(c) :
                      InitCase([n |-> n, deps |-> d, anti |-> a, backend |-> {}, list |-> l, missing |-> x,
-                               nopost |-> p[1], nodtor |-> p[2]])
+                               nopost |-> p[1], nodtor |-> p[2], noctor |-> p[3]])
 
 (* ------------------------------ helpers ------------------------------ *)
 
@@ -182,7 +203,7 @@ Calls(m) == [i \in 1..Len(cs.deps[m]) |-> [k |-> "dep", t |-> cs.deps[m][i]]]
 \* log_message(LOG_FATAL, ...): _exit(1), no exit handlers, no destructors
 FatalButIi ==
     /\ phase' = "exited" /\ status' = 1
-    /\ UNCHANGED <<cs, mods, depends, rdepends, handle, visited, backend, lstack, visit, node,
+    /\ UNCHANGED <<cs, mods, depends, rdepends, handle, visited, backend, lstack, loading, visit, node,
                    dstack, closing, log>>
 Fatal == FatalButIi /\ UNCHANGED ii
 
@@ -194,15 +215,23 @@ Exit(code, newlog) ==
 
 (* ------------------------------ module_load ------------------------------ *)
 
-\* module_load(m) for a module that is not in the set: module_get, dlopen, enter the constructor.
+\* module_load(m) for a module that is not in the set: module_get, dlopen, enter the constructor
+\* if there is one.
 \* (LoadList and Ctor test "already exists" before they come here, as the C code does twice.)
 ModuleLoad(m) ==
     IF m \in cs.missing
     THEN FatalButIi                                        \* "Unable to load module"; ii is the caller's
     ELSE /\ mods' = mods \cup {m}                          \* module_get(): fresh zeroed entry
          /\ handle' = [handle EXCEPT ![m] = TRUE]
-         /\ lstack' = Append(lstack, [m |-> m, k |-> 1])   \* prior = loading_module; loading_module = mod
-         /\ log' = Emit("ctor-begin", m)
+         /\ IF m \in cs.noctor
+            THEN \* prior = loading_module; loading_module = mod; dlsym(handle, "module_constructor")
+                 \* is NULL: nothing is called; loading_module = prior; return mod -- one step
+                 /\ loading' = IF Bug = "NoCtorNoRestore" THEN m ELSE loading
+                 /\ UNCHANGED <<lstack, log>>
+            ELSE \* prior = loading_module; loading_module = mod; func(name) is entered
+                 /\ lstack' = Append(lstack, [m |-> m, k |-> 1, prior |-> loading])
+                 /\ loading' = m
+                 /\ log' = Emit("ctor-begin", m)
          /\ UNCHANGED <<cs, phase, depends, rdepends, visited, backend, visit, node, dstack, closing, status>>
 
 \* module_load_list(): for (ii = 0; ii < list->used; ++ii) module_load(list->vec[ii])
@@ -210,42 +239,44 @@ LoadList ==
     /\ phase = "load" /\ lstack = <<>>
     /\ IF ii > Len(cs.list)
        THEN /\ phase' = "prepass"
-            /\ UNCHANGED <<cs, mods, depends, rdepends, handle, visited, backend, ii, lstack, visit,
+            /\ UNCHANGED <<cs, mods, depends, rdepends, handle, visited, backend, ii, lstack, loading, visit,
                            node, dstack, closing, log, status>>
        ELSE /\ ii' = ii + 1
             /\ IF cs.list[ii] \in mods
-               THEN UNCHANGED <<cs, phase, mods, depends, rdepends, handle, visited, backend, lstack,
+               THEN UNCHANGED <<cs, phase, mods, depends, rdepends, handle, visited, backend, lstack, loading,
                                 visit, node, dstack, closing, log, status>>
                ELSE ModuleLoad(cs.list[ii])
 
-\* the constructor of loading_module: next declaration, or return
+\* the innermost constructor in progress (that of m): next declaration, or return.  What it declares
+\* is recorded for loading_module (= m as long as every module_load() restores it)
 Ctor ==
     /\ phase = "load" /\ lstack # <<>>
     /\ LET m == Top(lstack).m
            k == Top(lstack).k
-           advance == lstack' = SetTop(lstack, [m |-> m, k |-> k + 1])
+           advance == lstack' = SetTop(lstack, [Top(lstack) EXCEPT !.k = k + 1]) /\ UNCHANGED loading
        IN
        IF k > Len(Calls(m))
        THEN /\ log' = Emit("ctor-end", m)
-            /\ lstack' = Pop(lstack)                        \* loading_module = prior
+            /\ lstack' = Pop(lstack)
+            /\ loading' = Top(lstack).prior                 \* loading_module = prior
             /\ UNCHANGED <<cs, phase, mods, depends, rdepends, handle, visited, backend, ii, visit,
                            node, dstack, closing, status>>
        ELSE LET call == Calls(m)[k] IN
             CASE call.k = "backend" ->                      \* module_is_backend()
-                    /\ backend' = [backend EXCEPT ![m] = @ + 1]
+                    /\ backend' = [backend EXCEPT ![loading] = @ + 1]
                     /\ advance
                     /\ UNCHANGED <<cs, phase, mods, depends, rdepends, handle, visited, ii, visit, node,
                                    dstack, closing, log, status>>
               [] call.k # "backend" /\ call.t \notin mods -> \* "If the module is not loaded yet, try to load it."
                     /\ ModuleLoad(call.t) /\ UNCHANGED ii
               [] call.k = "dep" /\ call.t \in mods ->       \* module_depends()
-                    /\ depends' = [depends EXCEPT ![m] = Append(@, call.t)]
-                    /\ rdepends' = [rdepends EXCEPT ![call.t] = Append(@, m)]
+                    /\ depends' = [depends EXCEPT ![loading] = Append(@, call.t)]
+                    /\ rdepends' = [rdepends EXCEPT ![call.t] = Append(@, loading)]
                     /\ advance
                     /\ UNCHANGED <<cs, phase, mods, handle, visited, backend, ii, visit, node, dstack,
                                    closing, log, status>>
               [] call.k = "anti" /\ call.t \in mods ->      \* module_antidepends()
-                    /\ depends' = [depends EXCEPT ![call.t] = Append(@, m)]
+                    /\ depends' = [depends EXCEPT ![call.t] = Append(@, loading)]
                     /\ advance
                     /\ UNCHANGED <<cs, phase, mods, rdepends, handle, visited, backend, ii, visit, node,
                                    dstack, closing, log, status>>
@@ -259,7 +290,7 @@ Prepass ==
     /\ visit' = IF \E m \in mods : visited[m] # 0 THEN 1 ELSE 0
     /\ node' = SetFirst
     /\ phase' = "walk"
-    /\ UNCHANGED <<cs, mods, depends, rdepends, handle, backend, ii, lstack, dstack, closing, log, status>>
+    /\ UNCHANGED <<cs, mods, depends, rdepends, handle, backend, ii, lstack, loading, dstack, closing, log, status>>
 
 \* module_dfs(m, v) called: the entry test.  Gives the new marks and whether a frame is pushed.
 DfsEnters(m, v, vis) == IF Bug = "D12" THEN ~(vis[m] # 0 /\ vis[m] < v) ELSE ~(vis[m] > 0)
@@ -278,16 +309,16 @@ WalkNode ==
        THEN \* module_load_list() returns 0; main(): signal handlers, event_base_dispatch();
             \* the daemon is running until SIGHUP: break_loop(), return EXIT_SUCCESS
             /\ Exit(0, Emit("running", 0))
-            /\ UNCHANGED <<cs, mods, depends, rdepends, handle, visited, backend, ii, lstack, visit, dstack>>
+            /\ UNCHANGED <<cs, mods, depends, rdepends, handle, visited, backend, ii, lstack, loading, visit, dstack>>
        ELSE IF visited[node] # 0
        THEN /\ node' = SetNextIn(mods, node)
-            /\ UNCHANGED <<cs, phase, mods, depends, rdepends, handle, visited, backend, ii, lstack, visit,
+            /\ UNCHANGED <<cs, phase, mods, depends, rdepends, handle, visited, backend, ii, lstack, loading, visit,
                            dstack, closing, log, status>>
        ELSE /\ rdepends' = AppendEach(rdepends, depends[node], node)
             /\ visit' = visit + 1
             /\ visited' = DfsMark(node, visit + 1, visited)        \* entry test passes: visited = 0
             /\ dstack' = <<[m |-> node, i |-> 1]>>
-            /\ UNCHANGED <<cs, phase, mods, depends, handle, backend, ii, lstack, node, closing, log, status>>
+            /\ UNCHANGED <<cs, phase, mods, depends, handle, backend, ii, lstack, loading, node, closing, log, status>>
 
 \* `return res` from the frame on top of dstack (already popped: `rest`), with marks/log as given
 DfsReturn(res, rest, vis, lg) ==
@@ -295,16 +326,16 @@ DfsReturn(res, rest, vis, lg) ==
     THEN \* back in module_load_list
          IF res = 0
          THEN /\ node' = SetNextIn(mods, node) /\ dstack' = rest /\ visited' = vis /\ log' = lg
-              /\ UNCHANGED <<cs, phase, mods, depends, rdepends, handle, backend, ii, lstack, visit, closing, status>>
+              /\ UNCHANGED <<cs, phase, mods, depends, rdepends, handle, backend, ii, lstack, loading, visit, closing, status>>
          ELSE \* "if (res) return res;" -> main(): return EXIT_FAILURE -> exit handlers
               /\ Exit(1, lg) /\ dstack' = rest /\ visited' = vis
-              /\ UNCHANGED <<cs, mods, depends, rdepends, handle, backend, ii, lstack, visit>>
+              /\ UNCHANGED <<cs, mods, depends, rdepends, handle, backend, ii, lstack, loading, visit>>
     ELSE \* back in the caller's for loop
          IF res = -1
          THEN Fatal                                          \* "Module dependency loop: %s -> %s"
          ELSE /\ dstack' = SetTop(rest, [m |-> Top(rest).m, i |-> Top(rest).i + 1])
               /\ visited' = vis /\ log' = lg
-              /\ UNCHANGED <<cs, phase, mods, depends, rdepends, handle, backend, ii, lstack, visit, node,
+              /\ UNCHANGED <<cs, phase, mods, depends, rdepends, handle, backend, ii, lstack, loading, visit, node,
                              closing, status>>
 
 DfsStep ==
@@ -319,11 +350,11 @@ DfsStep ==
             ELSE IF DfsEnters(other, visit, visited)
             THEN /\ visited' = DfsMark(other, visit, visited)
                  /\ dstack' = Append(dstack, [m |-> other, i |-> 1])
-                 /\ UNCHANGED <<cs, phase, mods, depends, rdepends, handle, backend, ii, lstack, visit, node,
+                 /\ UNCHANGED <<cs, phase, mods, depends, rdepends, handle, backend, ii, lstack, loading, visit, node,
                                 closing, log, status>>
             ELSE \* module_dfs(other) returns 0 at once
                  /\ dstack' = SetTop(dstack, [m |-> m, i |-> i + 1])
-                 /\ UNCHANGED <<cs, phase, mods, depends, rdepends, handle, visited, backend, ii, lstack, visit,
+                 /\ UNCHANGED <<cs, phase, mods, depends, rdepends, handle, visited, backend, ii, lstack, loading, visit,
                                 node, closing, log, status>>
        ELSE \* all dependencies done:
             \*   if (module->handle && (func = dlsym(module->handle, "module_post_init"))) func(module);
@@ -376,16 +407,16 @@ CloseRounds ==
        THEN /\ closing' = IF closing.progress THEN [closing EXCEPT !.progress = FALSE]
                           ELSE [closing EXCEPT !.part = "left"]
             /\ node' = SetFirst
-            /\ UNCHANGED <<cs, phase, mods, depends, rdepends, handle, visited, backend, ii, lstack, visit,
+            /\ UNCHANGED <<cs, phase, mods, depends, rdepends, handle, visited, backend, ii, lstack, loading, visit,
                            dstack, log, status>>
        ELSE LET next == SetNextIn(mods, node) IN
             /\ node' = next
             /\ IF backend[node] > 0 \/ rdepends[node] # <<>>
-               THEN UNCHANGED <<cs, phase, mods, depends, rdepends, handle, visited, backend, ii, lstack,
+               THEN UNCHANGED <<cs, phase, mods, depends, rdepends, handle, visited, backend, ii, lstack, loading,
                                 visit, dstack, closing, log, status>>
                ELSE /\ SetRemove(node)
                     /\ closing' = [closing EXCEPT !.progress = TRUE]
-                    /\ UNCHANGED <<cs, phase, ii, lstack, visit, dstack, status>>
+                    /\ UNCHANGED <<cs, phase, ii, lstack, loading, visit, dstack, status>>
 
 \* "Go through and remove any remaining modules."; then the second call from module_clean(),
 \* then assert(set_size(&modules) == 0)
@@ -395,15 +426,15 @@ CloseLeftovers ==
        THEN IF closing.call = 1
             THEN /\ closing' = [call |-> 2, part |-> "rounds", progress |-> FALSE]
                  /\ node' = SetFirst
-                 /\ UNCHANGED <<cs, phase, mods, depends, rdepends, handle, visited, backend, ii, lstack,
+                 /\ UNCHANGED <<cs, phase, mods, depends, rdepends, handle, visited, backend, ii, lstack, loading,
                                 visit, dstack, log, status>>
             ELSE /\ phase' = "exited"
                  /\ status' = IF mods = {} THEN status ELSE 134          \* abort() from the assert
-                 /\ UNCHANGED <<cs, mods, depends, rdepends, handle, visited, backend, ii, lstack, visit,
+                 /\ UNCHANGED <<cs, mods, depends, rdepends, handle, visited, backend, ii, lstack, loading, visit,
                                 node, dstack, closing, log>>
        ELSE /\ node' = SetNextIn(mods, node)
             /\ SetRemove(node)
-            /\ UNCHANGED <<cs, phase, ii, lstack, visit, dstack, closing, status>>
+            /\ UNCHANGED <<cs, phase, ii, lstack, loading, visit, dstack, closing, status>>
 
 Done == phase = "exited" /\ UNCHANGED vars
 
@@ -434,6 +465,10 @@ TypeOK ==
     /\ mods \subseteq Mods
     /\ \A m \in Mods : Range(depends[m]) \subseteq Mods /\ Range(rdepends[m]) \subseteq Mods
     /\ (status = -1) = (phase \in {"load", "prepass", "walk"})
+    /\ loading \in Mods \cup {0}
+    /\ lstack # <<>> => loading \in Mods                   \* the asserts in module_depends() etc. never fire
+\* loading_module is the module whose constructor is running (NULL outside constructors)
+LoadingIsInnermostCtor == loading = IF lstack = <<>> THEN 0 ELSE Top(lstack).m
 \* a module's rdepends names exactly the loaded modules whose depends name it (while nothing is torn down)
 RdependsMirrorsDepends ==
     (phase \in {"prepass", "walk"} /\ InContract) =>
@@ -457,7 +492,8 @@ EmitCase ==
     (phase' = "exited" /\ phase # "exited") =>
         PrintT("@@E" \o ToJson([n |-> cs.n, deps |-> cs.deps, list |-> cs.list,
                                  missing |-> SortedSeq(cs.missing), nopost |-> SortedSeq(cs.nopost),
-                                 nodtor |-> SortedSeq(cs.nodtor), class |-> Class(cs),
+                                 nodtor |-> SortedSeq(cs.nodtor), noctor |-> SortedSeq(cs.noctor),
+                                 class |-> Class(cs),
                                  log |-> [i \in 1..Len(log') |-> <<log'[i].e, log'[i].m>>],
                                  status |-> status']))
 =============================================================================
